@@ -119,6 +119,20 @@ def corpus():
              default=True, start=0, switches=[]),
         _arr(2, [_call(0, 'tA', [['status', 599], ['see'], ['call', _call(1, 'tB', [['status', '599 Custom'], ['see']])],
                                  ['status', 599], ['see']])]),
+        # copies of a response with a header given twice (F41), built without and with a class (F42); redirect() after it
+        _arr(2, [_call(0, 'tA', [['hdr_append', 'X-C', 'tAc1'], ['hdr_append', 'X-C', 'tAc2'], ['cookie', 'k', 'tAk'],
+                                 ['resp_copy'], ['see'], ['resp_copy', 'http'], ['see'], ['redirect', '?to=tA']])], default=True),
+        # the same signed cookie (mutable payload, shared secret) decoded by two applications: each changes its own value
+        _arr(2, [_call(0, 'tA', [['sess_mutate'], ['call', _call(1, 'tB', [['sess_mutate'], ['see']], signed=True)], ['see']],
+                       signed=True)]),
+        _arr(2, [_call(0, 'tA', [['sess_mutate'], ['see']], signed=True), _call(1, 'tC', [['sess_mutate'], ['see']], signed=True)],
+             default=True, start=0, switches=[]),
+        # listeners and the stock cache invalidation belong to ONE request object: another application's changes are
+        # not heard, and taking the stock listener off a copy leaves everybody's invalidation in place
+        _arr(2, [_call(0, 'tA', [['listen_around', [['call', _call(1, 'tB', [['req_set', 'QUERY_STRING', 'n=tBn'], ['see'],
+                                                                             ['req_del']])], ['see']]], ['see']])]),
+        _arr(2, [_call(0, 'tA', [['copy_off'], ['call', _call(1, 'tB', [['req_set', 'QUERY_STRING', 'n=tBn'], ['see']])],
+                                 ['req_set', 'QUERY_STRING', 'n=tAn'], ['see']])], default=True),
         # (c) a request whose body was read is copied and forwarded; the other application's hook replaces the input of
         #     ITS request; the first application reads its body and forms again
         _arr(2, [_call(0, 'tA', [['form_see'], ['call_copy', 1, [['see']], {'hook_input': True}], ['see'], ['form_see']],
@@ -272,7 +286,16 @@ def _gen_script(rng, tok, napps, depth, counter, busy=(), default=False):
             if rng.random() < 0.25:
                 kw = _body_kw(rng, sub, j, default)
                 sub_script = _end_in_body_error(sub_script)
-            script.append(['call', _call(j, sub, sub_script, **kw)])
+            elif rng.random() < 0.3:
+                kw = dict(signed=True)
+                sub_script.insert(rng.randrange(len(sub_script)), ['sess_mutate'])
+            nested = ['call', _call(j, sub, sub_script, **kw)]
+            if rng.random() < 0.3:
+                # this application's listener stays registered while the other application serves and changes ITS environ
+                nested[1]['script'] = [['req_set', 'HTTP_X_T', sub + 'xt']] + nested[1]['script']
+                script.append(['listen_around', [nested, ['see']]])
+            else:
+                script.append(nested)
             script.append(['see'])
         elif r < 0.80 and depth < 2 and free:
             # a copy of this request handed to another application (nested call on the copy's environ)
@@ -339,12 +362,16 @@ def _gen_arr(rng):
             kw['cookie'] = 'c=%sc' % tok
         if rng.random() < 0.3:
             kw['readonly'] = True         # the (legal) 'ombott.request.readonly' flag in the environ
+        if rng.random() < 0.3:
+            kw['signed'] = True           # the same signed cookie (mutable payload, shared secret) for every application
         if rng.random() < 0.25:
             kw['conditional'] = True      # If-Modified-Since / Range on this request (they matter to static_file only)
         j = rng.randrange(napps)
         script = _gen_script(rng, tok, napps, 0, [0], (j,), default)
         if kw.get('conditional') and script[-1] == ['ret', 'static']:
             script[-1] = ['see']
+        if kw.get('signed'):
+            script.insert(rng.randrange(len(script)), ['sess_mutate'])
         if kw.get('readonly'):
             script = [a[:3] if a[0] == 'call_copy' else a for a in script]    # no input replacement on a read-only environ
         if rng.random() < 0.2:
@@ -521,6 +548,10 @@ def nontrivial(case, obs):
         for a in c['script']:
             if a[0] == 'call':
                 walk(a[1])
+            elif a[0] == 'listen_around':
+                for b in a[1]:
+                    if b[0] == 'call':
+                        walk(b[1])
             elif a[0] == 'call_copy':
                 apps.add(a[1])
             elif a[0] == 'new_app':
@@ -610,6 +641,8 @@ def _redirect_outside_default_app(case, what, m):
                 return True
             if a[0] == 'call' and walk(a[1]):
                 return True
+            if a[0] == 'listen_around' and any(b[0] == 'call' and walk(b[1]) for b in a[1]):
+                return True
         return False
     return any(walk(c) for c in case['calls'])
 
@@ -628,21 +661,55 @@ def _static_outside_default_app(case, what, m):
                 return True
             if a[0] == 'call' and walk(a[1]):
                 return True
+            if a[0] == 'listen_around' and any(b[0] == 'call' and walk(b[1]) for b in a[1]):
+                return True
         return False
     return any(walk(c) for c in case['calls'])
+
+
+def _call_index(case):
+    """token -> (thread index, application index, nesting depth) for every call of an arrangement"""
+    out = {}
+
+    def walk(c, ti, depth):
+        if c.get('construct'):
+            return
+        out[c['tok']] = (ti, c['app'], depth)
+        for a in c['script']:
+            if a[0] == 'call':
+                walk(a[1], ti, depth + 1)
+            elif a[0] == 'call_copy':
+                out[c['tok'] + 'cc'] = (ti, a[1], depth + 1)
+            elif a[0] == 'listen_around':
+                for b in a[1]:
+                    if b[0] == 'call':
+                        walk(b[1], ti, depth + 1)
+    for ti, c in enumerate(case.get('calls', [])):
+        walk(c, ti, 0)
+    return out
 
 
 def _listener_in_handler(case, what, m):
-    """the failure is about what a listener registered with request.on() inside a handler heard, and the case has
-    such a handler next to another thread"""
-    if case.get('kind') != 'arr' or '(listen)' not in str(what) or len(case.get('calls', [])) < 2:
+    """exactly the listed finding: a listener registered inside a handler heard environ changes made by requests that
+    OTHER THREADS serve on the SAME application object (the listeners of one request object are shared by its threads).
+    Anything a listener hears from another application, from a copy, or from a nested call is a different failure."""
+    import re
+    what = str(what)
+    if case.get('kind') != 'arr' or '(listen)' not in what or 'foreign tokens:' not in what:
         return False
-
-    def walk(c):
-        if c.get('construct'):
+    mm = re.search(r'call (\S+) \(listen\).*foreign tokens: ([^;]*);', what)
+    if not mm:
+        return False
+    idx = _call_index(case)
+    me = idx.get(mm.group(1))
+    foreign = mm.group(2).split()
+    if me is None or not foreign:
+        return False
+    for tok in foreign:
+        other = idx.get(tok)
+        if other is None or other[0] == me[0] or other[1] != me[1]:
             return False
-        return any(a[0] == 'listen' or (a[0] == 'call' and walk(a[1])) for a in c['script'])
-    return any(walk(c) for c in case['calls'])
+    return True
 
 
 PREDICATES = {'redirect_outside_default_app': _redirect_outside_default_app,
